@@ -41,4 +41,12 @@ CHECKS.update({
    text="The specification's operators take no history argument; the driver forces the hidden hint into each bracket (and long random call sequences) and every answer must still equal the history-free specification.",
    note=_ZB + "Name-cache clause (repeat loads, failed names) is covered with C13/C20 by the Loader model."),
 })
+CHECKS["C16"] = dict(level="model_checking",
+   technique="TLA+ recogniser-with-result PosixTZ!ParseSpec (the property's grammar over byte strings) + TLC trace validation of cctz::ParsePosixSpec verdict and fields under two struct pre-fills (UBSan-trap), and end-to-end TZif loads of the same sentences",
+   text="Each of ~5.5k (quick) / ~100k (thorough) distinct sentences - every component swept over its values and boundaries, structural near misses, single-edit mutations, random bytes - is parsed by the real code twice with different pre-fills; TLC accepts the event only if verdict and every promised field equal ParseSpec; a sample is also loaded as a TZif footer (bad footer => load must fail).",
+   note=_TB + "a leading ':' and '<>' as the dst abbreviation are left unconstrained (documented modelling decisions).")
+CHECKS["C15"] = dict(level="model_checking",
+   technique="TLA+ spec Fixed (OffsetToName/NameToOffset/OffsetToAbbr) model-checked exhaustively on all 180001 offsets + TLC trace validation of fixed_time_zone/load-by-name/lookup/factory-count events for every offset and of mutated name strings",
+   text="Exhaustive on both sides: TLC checks round trip and abbreviation shape for every offset in [-90000, 90000]; the real library is driven for every one of those offsets (name, equality with load-by-name, 7 lookups across int64, zero data-source calls) and for thousands of single-edit name mutations (incl. NUL bytes, digits > 59, 24:00:01), each event decided by TLC against the spec.",
+   note=_TB + "exhaustive for offsets; names are sampled mutations.")
 NOT_APPLICABLE = {}
